@@ -15,6 +15,8 @@ func init() {
 	register(&Spec{
 		ID: "C20",
 		Explanation: "Decides accessor conformance (ORIGIN terms + dominance): Exists/String/MustString return Get's results; Int/Uint/Bool/Float return, on the found edge, the result pair of strconv.ParseInt(s,10,64)/ParseUint(s,10,64)/ParseBool(s)/ParseFloat(s,64) applied to the text Get returned, and (zero, ErrParamNotExists()) otherwise; each MustX calls the same strconv function with the same constants as X and returns the parsed value exactly on found && err == nil, its default otherwise; Count is len(params); Get is the comma-ok lookup; Set allocates on nil and stores under the given key on every path; Delete deletes the given key; Range ranges the map calling f(k, v); R2 a context obtained from the pool starts empty and nothing touches it once it is back in the pool (= C07.R3 b, c, e). " +
+			"R6 (= C13.R10) the combinators' snapshot and restore of parameters. " +
+			"R7 (= C05.R18) the zero Context is usable. " +
 			"Not decided: strconv itself.",
 		Assumptions: commonAssumptions,
 		Run: func(c *Ctx) {
@@ -23,6 +25,8 @@ func init() {
 			ruleCaptureDiscipline(c, "R3")
 			ruleBacktrackUndo(c, "R4")
 			ruleReadersWriteNothing(c, "R5", "context")
+			ruleCombinators(c, "R6")
+			ruleZeroContextIsUsable(c, "R7")
 		},
 	})
 }
